@@ -195,4 +195,41 @@ PROPS = {
         "assumptions": ["host-limit predicates per corpus type are hand-written in harness/src/corpus.rs"],
         "partial": ["native_eq_untyped is established by correspondence only; theorems: the blob/text/vector coercion facts the specialised paths must respect and the predicate of the known finding"],
     },
+    "C11": {
+        "profiles": ["debug"],
+        "rule": "texts: every scalar below U+0300 alone and after another character (thorough: every Unicode scalar value, both positions), random hostile texts (NUL, DEL, controls, quotes, backslash, surrogate-adjacent, combining, astral) printed by Display and Debug and read back; "
+                "literal bodies assembled from an alphabet of valid, malformed and truncated escapes through the sub-lexer; every single-byte blob and random blobs through the Debug printer; 10^k+{-1,0,1} for k <= 40 and random number tokens (decimal, 0x, 0X, underscores); "
+                "positional/explicit field mixes through both grammars; whole values of generated types (hostile texts, hostile and keyword labels, vectors of 9..12 elements around the abbreviation threshold) through Display(args), Debug(args), Display(value) + parse + annotate; "
+                "every request is non-trivial; distinct = distinct request lines",
+        "trusted": [
+            "Rust's str::escape_debug is modelled by escChar with the Unicode tables (is_printable, is_grapheme_extended) as parameters: theorems hold for every table; the shape check of the correspondence accepts any table",
+            "logos (the lexer generator) is modelled by the longest-match reading of the three escape regexes of `enum Text`; the LALRPOP grammar above the token level is exercised through the implementation-level round trip (op txt.value), not modelled",
+            "float printing/parsing is not modelled (finite floats are exercised by txt.value)",
+        ],
+        "assumptions": ["pretty printer layout (line breaks, indentation) is not modelled: it only inserts white space between tokens"],
+        "partial": ["whole-value round trip (printer + grammar + annotate_types) is established by the implementation-level oracle on generated values only; theorems cover the token level: text, blob, number, positional fields"],
+    },
+    "C12": {
+        "profiles": ["debug"],
+        "rule": "names: keywords of every table, identifier-like, empty, digits-first, spaces, dashes, hostile Unicode — printed by pp_text and parsed back as a record field; interfaces: generated environments (0..5 definitions, recursive, func/service references, "
+                "hostile field names in half of the definitions, hostile method names, methods given by a name that denotes a function type, service constructors) printed by compile, parsed, checked, compared definition by definition with the structural equality of subtype.rs, "
+                "then printed again by the syntax-tree printer and compared; every request is non-trivial; distinct = distinct request lines",
+        "trusted": [
+            "the keyword table of pretty/candid.rs and the reserved words of token.rs are re-extracted on every run (tools/extract.py): theorem lexer_words_are_printer_keywords is about the tables as they are now",
+            "structural equality of interfaces is decided by the implementation's own `equal` (property C05's subject), after merging the two environments",
+        ],
+        "assumptions": ["Rust-type export (export_service!, TypeContainer) is not exercised here; it is exercised by C01's corpus types through candid_type"],
+        "partial": ["whole-interface round trip is established by the implementation-level oracle on generated interfaces only; theorems cover name spelling and positional shorthand"],
+    },
+    "C13": {
+        "profiles": ["debug", "release"],
+        "rule": "token soups over the lexer's alphabet incl. boundary numerals, malformed escapes, unterminated strings and comments, and known past crashers; grammar-directed sentences with one token deleted, duplicated or replaced; nesting 1/64/127/128; 400-digit numerals; "
+                "each through the eight entry points in rotation (program, type, types, init args, test script, args, value, program + check_prog); every request is non-trivial; distinct = distinct request lines",
+        "trusted": [
+            "a panic is observed through catch_unwind; a non-unwinding abort (e.g. a UB check in a debug build) kills the harness and is reported as a violation without an input",
+            "stack exhaustion beyond the nesting bound of the property is not explored",
+        ],
+        "assumptions": ["the LALRPOP-generated parser tables and logos-generated automata are exercised, not modelled"],
+        "partial": ["totality of the grammar actions and of check_prog is established by correspondence only; theorems: totality of the string sub-lexer model, range of positional numbering, digit sets of normalised number tokens"],
+    },
 }
